@@ -651,6 +651,16 @@ func (f *FuncCtx) selectStmt(s *ast.SelectStmt, env *Env, fl *flow) *Env {
 		g := f.fresh("sel", "Bool")
 		f.assume(et, g)
 		if c.Comm != nil {
+			// a send that is a case of a select with a default clause never blocks (contracts: `nonblocking`)
+			hasDefault := false
+			for _, oc := range s.Body.List {
+				if oc.(*ast.CommClause).Comm == nil {
+					hasDefault = true
+				}
+			}
+			savedNB := f.sendNonBlocking
+			f.sendNonBlocking = hasDefault
+			defer func(v bool) { f.sendNonBlocking = v }(savedNB)
 			// a receive from a nil channel is never ready
 			if ch := recvChan(c.Comm); ch != nil {
 				if id, ok := ast.Unparen(ch).(*ast.Ident); ok {
